@@ -307,6 +307,9 @@ class RecordLayer(object):
         self.fixedIVBlock = None
 
         self.handshake_finished = False
+        # TLS 1.3: unencrypted alerts are tolerated only until the handshake
+        # has completed (set to False by TLSRecordLayer._handshakeDone)
+        self.allow_plaintext_alert = True
 
         self.padding_cb = None
 
@@ -929,6 +932,7 @@ class RecordLayer(object):
                 # when we're in the early handshake, then unencrypted alerts
                 # are fine too
                 elif self._is_tls13_plus() and \
+                        self.allow_plaintext_alert and \
                         header.type == ContentType.alert and \
                         len(data) < 3 and \
                         self._readState and \
